@@ -8,6 +8,8 @@ import (
 	"sort"
 	"strings"
 
+	"golang.org/x/tools/go/ssa"
+
 	"zverif/checker/an"
 )
 
@@ -438,6 +440,7 @@ func c09(p *an.Prog, r *an.R, tier string) {
 	r.Floor("C09.R3.sections-with-both-codecs-visible", 8, paired)
 
 	// ---- R4
+	c09LazyCaches(p, r)
 	c09SkipReasons(p, r)
 	// ---- R5
 	stickyWriter := p.Named("index", "writer")
@@ -567,4 +570,112 @@ func returnsFreshError(info *types.Info, rs *ast.ReturnStmt) bool {
 	}
 	cal := an.Callee(info, c)
 	return an.IsPkgFunc(cal, "fmt", "Errorf") || an.IsPkgFunc(cal, "errors", "New")
+}
+
+// c09LazyCaches: a ShardBuilder field that is filled lazily (`if b.F == nil
+// { b.F = ... }`) from another field D of the builder is a cache of D. Every
+// function that stores D must then also store F (invalidate it) - otherwise
+// the documents of the next repository are encoded with the previous
+// repository's derived data.
+func c09LazyCaches(p *an.Prog, r *an.R) {
+	r.Rule("C09.R6", "for every ShardBuilder field F that is lazily initialised (store under `F == nil`) in a function that reads builder field D: every function that stores D also stores F")
+	sbT := p.Named("index", "ShardBuilder")
+	idx := p.Pkg("index")
+	if !r.Anchor(sbT != nil && idx != nil, "index.ShardBuilder") {
+		return
+	}
+	fields := an.StructFields(sbT)
+	fieldOf := func(v ssa.Value) string {
+		fa, ok := v.(*ssa.FieldAddr)
+		if !ok || an.NamedOf(fa.X.Type()) != sbT {
+			return ""
+		}
+		return fields[fa.Field].Name()
+	}
+	type dep struct{ cache, source, where string }
+	var deps []dep
+	storesBy := map[string]map[string]bool{} // function -> fields stored
+	var funcs []*ssa.Function
+	for _, f := range p.SSAFuncs() {
+		if f.Pkg == nil || f.Pkg.Pkg != idx.Types || strings.HasSuffix(p.Fset.Position(f.Pos()).Filename, "_test.go") {
+			continue
+		}
+		funcs = append(funcs, f)
+	}
+	for _, f := range funcs {
+		st := map[string]bool{}
+		reads := map[string]bool{}
+		lazy := map[string]bool{}
+		an.Instrs(f, func(b *ssa.BasicBlock, in ssa.Instruction) {
+			switch x := in.(type) {
+			case *ssa.Store:
+				if n := fieldOf(x.Addr); n != "" {
+					if _, fresh := x.Addr.(*ssa.FieldAddr).X.(*ssa.Alloc); !fresh {
+						st[n] = true
+						// is this store control-dependent on `F == nil`?
+						for d := b; d != nil; d = d.Idom() {
+							if len(d.Instrs) == 0 {
+								continue
+							}
+							iff, ok := d.Instrs[len(d.Instrs)-1].(*ssa.If)
+							if !ok {
+								continue
+							}
+							bo, ok := iff.Cond.(*ssa.BinOp)
+							if !ok || (bo.Op != token.EQL && bo.Op != token.NEQ) {
+								continue
+							}
+							for _, side := range []ssa.Value{bo.X, bo.Y} {
+								if ld, ok := side.(*ssa.UnOp); ok && ld.Op == token.MUL && fieldOf(ld.X) == n {
+									other := bo.Y
+									if side == bo.Y {
+										other = bo.X
+									}
+									if c, ok := other.(*ssa.Const); ok && c.IsNil() {
+										lazy[n] = true
+									}
+								}
+							}
+						}
+					}
+				}
+			case *ssa.UnOp:
+				if x.Op == token.MUL {
+					if n := fieldOf(x.X); n != "" {
+						reads[n] = true
+					}
+				}
+			}
+		})
+		storesBy[an.SSAName(f)] = st
+		for c := range lazy {
+			for src := range reads {
+				if src != c {
+					deps = append(deps, dep{c, src, an.SSAName(f)})
+				}
+			}
+		}
+	}
+	sort.Slice(deps, func(i, j int) bool { return deps[i].cache+deps[i].source < deps[j].cache+deps[j].source })
+	n := 0
+	for _, dp := range deps {
+		var fnames []string
+		for fn := range storesBy {
+			fnames = append(fnames, fn)
+		}
+		sort.Strings(fnames)
+		for _, fn := range fnames {
+			st := storesBy[fn]
+			if !st[dp.source] || fn == dp.where {
+				continue
+			}
+			n++
+			r.Fn(fn)
+			r.Check(st[dp.cache], "C09.R6", "index.ShardBuilder."+dp.cache+"/invalidated-with/"+dp.source+"/in/"+fn, token.NoPos, fn+" stores "+dp.source+" and "+dp.cache, "ShardBuilder."+dp.cache+" is filled lazily in "+dp.where+" from ShardBuilder."+dp.source+", but "+fn+" changes "+dp.source+" without resetting "+dp.cache+": documents added afterwards are encoded with data derived from the previous "+dp.source)
+		}
+	}
+	r.Extra["C09.R6.lazy_cache_dependencies"] = len(deps)
+	if n == 0 {
+		r.OK("C09.R6", "index.ShardBuilder/no-lazily-derived-caches", token.NoPos, "no ShardBuilder field is lazily derived from another builder field")
+	}
 }
